@@ -17,6 +17,7 @@ import (
 	"net/http/httptest"
 	"slices"
 	"strings"
+	"math"
 	"testing"
 	"testing/synctest"
 	"time"
@@ -50,6 +51,9 @@ func c02Envelopes() []c02Env {
 		{name: "tools/call(name wrong type)", method: "tools/call", params: `{"name":7}`, want: -32602},
 		{name: "tools/call(no params)", method: "tools/call", want: -32600},
 		{name: "tools/call(params null)", method: "tools/call", params: "null", want: -32600},
+		// a raw tool handler whose result cannot be encoded (a NaN in its structured content): the call is
+		// still owed exactly one response
+		{name: "tools/call(unencodable result)", method: "tools/call", params: `{"name":"nan","arguments":{}}`, anyClass: true},
 		{name: "unknown/x", method: "unknown/x", params: "{}", want: -32601},
 		{name: "empty method", method: "", params: "{}", want: -32601},
 		{name: "initialized with id", method: "notifications/initialized", params: "{}", want: -32600},
@@ -428,6 +432,9 @@ func c02NewServer(gates map[string]chan struct{}, started *[]string) *Server {
 	AddTool(s, &Tool{Name: "t"}, func(ctx context.Context, r *CallToolRequest, in map[string]any) (*CallToolResult, any, error) {
 		return &CallToolResult{}, nil, nil
 	})
+	s.AddTool(&Tool{Name: "nan", InputSchema: json.RawMessage(`{"type":"object"}`)}, func(ctx context.Context, r *CallToolRequest) (*CallToolResult, error) {
+		return &CallToolResult{Content: []Content{}, StructuredContent: math.NaN()}, nil
+	})
 	AddTool(s, &Tool{Name: "g"}, func(ctx context.Context, r *CallToolRequest, in struct {
 		K string `json:"k"`
 	}) (*CallToolResult, any, error) {
@@ -556,6 +563,10 @@ func c02RunCase(c c02Case) (obs, sig, msg string) {
 			if m.env.gate && len(started) > 0 {
 				return fail("rejected-post-dispatched", "the POST was rejected with %d but a handler of it ran (%v)", st, started)
 			}
+		case m.env.anyClass && c02DupIDs(c.sent, m.id):
+			// the id is (legitimately) used by another request of this case too: one response of any class is due on top
+			want[m.id] = append(want[m.id], "*")
+			classes = append(classes, "any")
 		case m.env.anyClass:
 			if len(got[m.id]) != 1 {
 				return fail("cancelled-call-answered-"+fmt.Sprint(len(got[m.id]))+"-times", "call id %s, cancelled by the peer while in flight, received %d responses (%v), want exactly one", m.id, len(got[m.id]), got[m.id])
@@ -569,8 +580,12 @@ func c02RunCase(c c02Case) (obs, sig, msg string) {
 	}
 	for id, w := range want {
 		g := append([]string{}, got[id]...)
+		slices.SortStableFunc(w, func(a, b string) int { return btoi(a == "*") - btoi(b == "*") }) // wildcards are matched last
 		for _, cls := range w {
 			i := slices.Index(g, cls)
+			if cls == "*" && len(g) > 0 {
+				i = 0
+			}
 			if i < 0 {
 				name := ""
 				for _, m := range c.sent {
